@@ -241,7 +241,11 @@ func (e *Eng) hstore(st *State, prefix string, idx []T, t types.Type, v Val) {
 func (e *Eng) loadPtr(fr *Frame, st *State, p *PtrV, t types.Type) Val {
 	switch p.Kind {
 	case pLocal:
-		return p.Local.val
+		v := p.Local.val
+		for _, i := range p.Path {
+			v = v.(*StructV).Fields[i]
+		}
+		return v
 	case pStruct:
 		s := under(t).(*types.Struct)
 		sv := &StructV{}
@@ -271,7 +275,7 @@ func (e *Eng) loadPtr(fr *Frame, st *State, p *PtrV, t types.Type) Val {
 func (e *Eng) storePtr(fr *Frame, st *State, p *PtrV, t types.Type, v Val) {
 	switch p.Kind {
 	case pLocal:
-		p.Local.val = v
+		p.Local.val = setPath(p.Local.val, p.Path, v)
 	case pStruct:
 		s := under(t).(*types.Struct)
 		sv, ok := v.(*StructV)
@@ -301,11 +305,30 @@ func (e *Eng) storePtr(fr *Frame, st *State, p *PtrV, t types.Type, v Val) {
 	}
 }
 
+func setPath(cur Val, path []int, v Val) Val {
+	if len(path) == 0 {
+		return v
+	}
+	sv := cur.(*StructV)
+	nf := append([]Val{}, sv.Fields...)
+	nf[path[0]] = setPath(sv.Fields[path[0]], path[1:], v)
+	return &StructV{Fields: nf}
+}
+
 // fieldPtr computes &p.f for field i of struct type st (p points to a struct of type t).
 func (e *Eng) fieldPtr(p *PtrV, t types.Type, i int) *PtrV {
 	s := under(t).(*types.Struct)
 	ft := s.Field(i).Type()
 	fn := fieldName(s, i)
+	switch p.Kind {
+	case pLocal:
+		np := *p
+		np.Path = append(append([]int{}, p.Path...), i)
+		np.Elem = ft
+		return &np
+	case pGlobal:
+		return &PtrV{Kind: pGlobal, Fam: p.Fam + "." + fn, Elem: ft, NonNil: true, Ref: null}
+	}
 	switch under(ft).(type) {
 	case *types.Struct:
 		f := e.q.DeclareFun("sub|"+typeName(t)+"|"+fn, []string{sRef}, sRef)
@@ -365,7 +388,7 @@ func (e *Eng) assumeAllocated(fr *Frame, st *State, r T) {
 func (e *Eng) havocAll(st *State, why string) {
 	names := e.sortedHeapNames()
 	for _, n := range names {
-		if n == "Alloc" || strings.HasPrefix(n, "G|holds_") {
+		if n == "Alloc" || strings.HasPrefix(n, "G|holds_") || e.w.stableGlobal(n) {
 			continue
 		}
 		st.heap[n] = e.fresh("hv|"+n, e.heapNames[n])
